@@ -96,11 +96,14 @@ func execSched(h *caseHdr, ev M, line []byte) any {
 		in := reflect.New(gt)
 		abs.Build(pr.T, decodeAny(pr.V), in.Elem())
 		var data []byte
-		if pr.Op == "unmarshal" {
+		if pr.Op == "unmarshal" || pr.Op == "corrupt" {
 			var err error
 			data, err = prep.Marshal(nil, in.Interface())
 			if err != nil {
 				st.result["err"] = "preparation: " + err.Error()
+			}
+			if pr.Op == "corrupt" && len(data) > 0 {
+				data = data[:len(data)-1] // the last entry is cut short: the decode fails half way through it
 			}
 			st.data = data
 		}
@@ -121,6 +124,10 @@ func execSched(h *caseHdr, ev M, line []byte) any {
 					st.result["err"] = errStr(err)
 					st.result["back"] = abs.Project(pr.T, back.Elem())
 					st.back = back
+				case "corrupt":
+					back := reflect.New(gt)
+					err := inst.Unmarshal(data, back.Interface())
+					st.result["err"] = errStr(err) // value or error: what hostile input gives is C04's business
 				case "codec":
 					_, err := inst.CodecForType(gt)
 					st.result["err"] = errStr(err)
